@@ -335,6 +335,25 @@ func extractC09() *lean {
 	l.def("verifyThumbprintGuardsNilJwk", "Bool", map[bool]string{true: "true", false: "false"}[g1], g1)
 	l.def("findKeyGuardsNilJwk", "Bool", map[bool]string{true: "true", false: "false"}[g2], g2)
 
+	// verifyThumbprint: is the thumbprint calculated from the key (keyAsJWK.Thumbprint) rather than read back through
+	// jwk.AssignKeyID + KeyID(), which trusts a "kid" member inside the publicKeyJwk?
+	fromKey, viaAssign := false, false
+	if fd := c09Method(val, "verificationMethodValidator", "verifyThumbprint"); fd != nil {
+		ast.Inspect(fd, func(n ast.Node) bool {
+			if c, ok := n.(*ast.CallExpr); ok {
+				switch exprString(c.Fun) {
+				case "keyAsJWK.Thumbprint":
+					fromKey = true
+				case "jwk.AssignKeyID", "keyAsJWK.KeyID":
+					viaAssign = true
+				}
+			}
+			return true
+		})
+	}
+	okThumb := fromKey && !viaAssign
+	l.def("thumbprintCalculatedFromKeyMaterial", "Bool", map[bool]string{true: "true", false: "false"}[okThumb], okThumb)
+
 	// ---- dag/keys.go: the only error the key resolver moves on from
 	_, keys := parseFile("network/dag/keys.go")
 	keyCont := ""
